@@ -116,7 +116,8 @@ func convRun(args []string) {
 			}
 			fits := units < 2000000000 && backUnits < 2000000000
 			line := map[string]any{"t": "dur", "text": string(*dt), "fits": fits, "eq": err == nil && back == d,
-				"calendar": usesCalendarUnits(string(*dt))} // the formatter switched to years / months
+				"calendar": usesCalendarUnits(string(*dt)), // the formatter switched to years / months
+				"long":     d >= 3276*24*time.Hour}         // ... which it does from 3276 days on (its day field is an int16 of tenths)
 			if fits {
 				line["units"], line["back"] = units, backUnits
 			} else {
